@@ -32,6 +32,7 @@ func checkC16(r *Report, p *Program) {
 	keyCompleteness(r, p, "R16.7", "updateStrategyMapKey", "selectorMapKey")
 	// nothing — not even the finalizer — is put on an object that is not selected (shared with C10)
 	r10_1(r, p, syncEntries(r, p, "R10.1"))
+	selectorBuildTable(r, p, "R16.8")
 }
 
 func r16_1(r *Report, p *Program, e *syncEntry) {
@@ -586,5 +587,69 @@ func r02_4_getChildren(r *Report, p *Program, rule string, gc *ssa.Function) {
 			why = "an object can be reported as attachment without (controller owner reference to the target ∧ marker == this decorator): attachments of other controllers/decorators would be sent to the hook and deleted"
 		}
 		r.Check(rule, sf("%s→Insert#%d[owner∧marker]", FK(gc), i), p.InstrPos(in), ok, "attachment ⇔ owner UID ∧ own marker", why)
+	}
+}
+
+// selectorBuildTable: newDecoratorSelector turns a resource rule's selectors into matchers unconditionally:
+// a given label/annotation selector is converted (whatever it contains), a missing one becomes Everything().
+func selectorBuildTable(r *Report, p *Program, rule string) {
+	r.Rule(rule, "newDecoratorSelector, per resource rule and per selector kind: selector given ⇒ stored matcher = LabelSelectorAsSelector(that selector, match-fields and expressions); not given ⇒ Everything(); nothing else decides")
+	r.Floor(rule, 2)
+	f := fn(r, p, rule, "controller/decorator.newDecoratorSelector")
+	if f == nil {
+		return
+	}
+	loops := engine.RangeLoops(f)
+	if len(loops) != 1 {
+		r.Check(rule, FK(f), p.Pos(f.Pos()), false, "", "expected one loop over the resource rules")
+		return
+	}
+	l := loops[0]
+	for _, kind := range []string{"LabelSelector", "AnnotationSelector"} {
+		mapField := map[string]string{"LabelSelector": "labelSelectors", "AnnotationSelector": "annotationSelectors"}[kind]
+		paths, err := engine.EnumPaths(f, engine.EnumOpts{Start: l.Body, Leave: func(b *ssa.BasicBlock) bool { return b == l.Header || b == l.Exit },
+			Effect: func(in ssa.Instruction) bool {
+				mu, isMU := in.(*ssa.MapUpdate)
+				return isMU && strings.HasSuffix(E(mu.Map), "."+mapField)
+			}})
+		ok, why := err == nil, ""
+		for _, pa := range paths {
+			if pa.EndKind == "return" {
+				continue // error exits
+			}
+			given := 0
+			for _, lt := range pa.Lits {
+				if v, isNil, isT := lt.NilTest(); isT && strings.HasSuffix(E(v), "."+kind) {
+					given = 1
+					if isNil {
+						given = -1
+					}
+				}
+			}
+			if len(pa.Effects) != 1 {
+				ok, why = false, sf("a resource rule's %s is stored %d times in one iteration", kind, len(pa.Effects))
+				continue
+			}
+			v := E(pa.Effects[0].(*ssa.MapUpdate).Value)
+			conv := strings.Contains(v, "LabelSelectorAsSelector)(")
+			every := strings.Contains(v, "labels.Everything)(")
+			extra := 0
+			for _, lt := range pa.Lits {
+				if strings.Contains(lt.Atom, "."+kind+".") && !strings.Contains(lt.Atom, "LabelSelectorAsSelector") {
+					extra++ // a decision on the selector's contents
+				}
+			}
+			switch {
+			case given == 1 && !conv:
+				ok, why = false, "a given "+kind+" is not converted into the matcher that is stored (stored: "+v+")"
+			case given == -1 && !every:
+				ok, why = false, "a missing "+kind+" does not become Everything()"
+			case given == 0:
+				ok, why = false, "the matcher for "+kind+" is chosen without looking at whether the rule gives one"
+			case every && extra > 0, given == 1 && extra > 0:
+				ok, why = false, "whether a given "+kind+" is honoured depends on its contents (e.g. only when it has match-fields): a selector consisting of expressions alone is ignored and every object of the kind is selected"
+			}
+		}
+		r.Check(rule, FK(f)+"["+kind+"]", p.Pos(f.Pos()), ok, "given ⇒ converted; missing ⇒ Everything", why)
 	}
 }
